@@ -32,6 +32,12 @@ add(P, "admin_named", two, both + [{"a": "AdminPurge", "k": "k1", "d": "d1"}] + 
 add(P, "admin_unnamed", two, both + [{"a": "AdminPurge", "k": "k1", "d": ""}] + ask("r1", "k1", "d1", "ok") + ask("r2", "k1", "d2"))
 add(P, "purge_after_kill", one, fetch("r1", "k1", "d1") + [{"a": "Kill"}] + purge("p1", "k1", "d1") + ask("r2", "k1", "d1", "ok"))
 add(P, "purge_after_eviction", one, fetch("r1", "k1", "d1") + fetch("r2", "k2", "d1") + purge("p1", "k1", "d1") + ask("r3", "k1", "d1", "ok"))
+# the entry that is purged was itself restored from the store (fetched, pushed out of memory, asked for again): the purge
+# removes the persisted copy all the same
+add(P, "purge_of_restored_entry_then_eviction", one, fetch("r1", "k1", "d1", 3) + fetch("r2", "k2", "d1", 3) + ask("r3", "k1", "d1", "ok") + R("r3") + purge("p1", "k1", "d1")
+    + fetch("r2", "k2", "d1", 3) + ask("r4", "k1", "d1", "ok"))
+add(P, "purge_of_restored_entry_then_kill", one, fetch("r1", "k1", "d1", 3) + [{"a": "Kill"}] + ask("r3", "k1", "d1", "ok") + R("r3") + purge("p1", "k1", "d1")
+    + [{"a": "Kill"}] + ask("r4", "k1", "d1", "ok"))
 add(P, "admin_purge_after_eviction", one, fetch("r1", "k1", "d1") + fetch("r2", "k2", "d1") + [{"a": "AdminPurge", "k": "k1", "d": "d1"}] + ask("r3", "k1", "d1", "ok"))
 # a purge while a fetch is in flight, a request is parked behind it and another request holds the entry it looked up
 # before the purge (it is between the lookup and Get): everybody must come to an end
